@@ -144,7 +144,67 @@ func jsonrpcOutcome(r httpRes, out map[string]json.RawMessage) (string, string) 
 	return "result", ""
 }
 
+// c15OtherNetworks: the accept stage on a network that does not go through the port multiplexer
+// (unix socket): a connection the accept plugin rejects is not served there either.
+func c15OtherNetworks(o *Out, r *rand.Rand) {
+	for _, auth := range []bool{false, true} {
+		rig, err := newSrvRig(srvOpts{auth: auth, unix: true})
+		if err != nil {
+			o.Note("unix socket server could not be started: %v", err)
+			return
+		}
+		id := 660000
+		if auth {
+			id = 670000
+		}
+		for round := 0; round < 6; round++ {
+			accept := round%2 == 1
+			if !accept {
+				atomic.StoreInt32(&rejectAccept, 1)
+			}
+			id++
+			p, err := dialRaw(rig.addr)
+			if err != nil {
+				atomic.StoreInt32(&rejectAccept, 0)
+				o.Violate("srv.rig", "cannot connect to the unix socket: "+err.Error(), nil)
+				rig.close()
+				return
+			}
+			ow := round >= 4
+			meta := map[string]string{"rid": fmt.Sprint(id)}
+			if auth {
+				meta[share.AuthKey] = "good"
+			}
+			p.send(rawReq{id: id, seq: uint64(id), path: "Svc", method: "Do", ser: protocol.JSON, oneway: ow, meta: meta, args: &SArgs{ID: id, Mode: "ok"}})
+			msgs, closed := p.readAll(1, 400*time.Millisecond)
+			p.c.Close()
+			atomic.StoreInt32(&rejectAccept, 0)
+			invoked := rig.invocations(id)
+			o.Eval(fmt.Sprintf("unix accept=%v auth=%v oneway=%v", accept, auth, ow), !accept)
+			o.Count("other-networks.unix")
+			rp := map[string]any{"network": "unix", "accept_plugin_accepts": accept, "auth": auth, "oneway": ow, "handler_invocations": invoked, "responses": len(msgs), "connection_closed": closed}
+			if !accept && invoked > 0 {
+				o.Violate("c15.rejected-but-invoked.native.accept", fmt.Sprintf("unix socket: a connection rejected by the accept plugin reached the handler (%d invocations)", invoked), rp)
+				rig.close()
+				return
+			}
+			if !accept && len(msgs) > 0 && msgs[0].MessageStatusType() != protocol.Error {
+				o.Violate("c15.rejected-but-result.native.accept", "unix socket: a connection rejected by the accept plugin got a result", rp)
+				rig.close()
+				return
+			}
+			if accept && invoked != 1 {
+				o.Violate("c15.accepted-not-served", fmt.Sprintf("unix socket: an accepted, authenticated request ran %d times", invoked), rp)
+				rig.close()
+				return
+			}
+		}
+		rig.close()
+	}
+}
+
 func runC15Ingress(o *Out, r *rand.Rand) {
+	c15OtherNetworks(o, r)
 	n := 150
 	if thorough() {
 		n = 1200
